@@ -8,9 +8,10 @@ ASSUMPTIONS = [
     'time is exact rational in the theorems; the executable model runs at IEEE double and is compared bit for bit',
     'heapq.heappop returns a minimum of the queued tuples (library)',
     'long-run probes (more than 2**20 scheduled occurrences before the coincidences) are judged by the direct oracle only; the model is not run on them',
+    'integer-clock probes (initial_time beyond 2**53, integer delays and stops) are judged by the direct oracle only; the model runs at IEEE double',
 ]
 
-SPEC = [(5, 'time'), (2, 'intr'), (1, 'victim'), (1, 'outcome'), (1, 'cond'), (2, 'plan:time')]
+SPEC = [(5, 'time'), (2, 'intr'), (1, 'victim'), (1, 'outcome'), (1, 'cond'), (2, 'plan:time'), (1, 'ack')]
 
 
 def run(ctx):
@@ -20,6 +21,10 @@ def run(ctx):
             fails, cov = klong.run_probe(j['case'])
             return {'coverage': {'evaluations': 1, 'distinct_nontrivial': 1, 'rule': 'replayed long-run probe', 'samples': [j['case']],
                                  'long_run_probes': [cov]}, 'disagreements': [], 'oracle_failures': fails}
+        if isinstance(j.get('case'), dict) and j['case'].get('probe') == 'int-clock':
+            fails, cov = klong.run_intclock(j['case'])
+            return {'coverage': {'evaluations': 1, 'distinct_nontrivial': 1, 'rule': 'replayed integer-clock probe', 'samples': [j['case']],
+                                 'integer_clock_probes': cov}, 'disagreements': [], 'oracle_failures': fails}
     res = kprops.run_kernel(ctx, 'C01', SPEC, 2000, 60000, oracles=[kprops.oracle_time_monotone, koracle.oracle_c01])
     res['coverage'].update(kbridge.coverage('C01'))
     if not ctx.replay:
@@ -27,4 +32,8 @@ def run(ctx):
         fails, cov = klong.probes(ctx)
         res['oracle_failures'] += fails
         res['coverage']['long_run_probes'] = cov
+        # oracle-only cases, counted separately: integer clocks beyond 2**53 (integer delays and stops, exact as Python ints)
+        fails, cov = klong.intclock_probes(ctx)
+        res['oracle_failures'] += fails
+        res['coverage']['integer_clock_probes'] = cov
     return res
